@@ -325,7 +325,7 @@ static void query(int slot, const op_t *o)
         spif_str_t s = SPIF_STR(x), sub = spif_str_substr(s, 0, 2);
         spif_charptr_t p = spif_str_substr_to_ptr(s, -1, 1);
         if (sub) spif_str_del(sub);
-        if (p) sim_free(p);
+        if (p) LIB_FREE(p);
         spif_str_index(s, 'a'); spif_str_to_num(s, 10);
         break;
     }
@@ -333,7 +333,7 @@ static void query(int slot, const op_t *o)
         spif_mbuff_t m = SPIF_MBUFF(x), sub = spif_mbuff_subbuff(m, 0, 1);
         spif_byteptr_t p = spif_mbuff_subbuff_to_ptr(m, 0, 1);
         if (sub) spif_mbuff_del(sub);
-        if (p) sim_free(p);
+        if (p) LIB_FREE(p);
         break;
     }
     default:
@@ -344,7 +344,7 @@ static void query(int slot, const op_t *o)
             SPIF_LIST_FIND(x, pr); SPIF_LIST_INDEX(x, pr); SPIF_LIST_GET(x, (spif_listidx_t)(how % 4));
             while (SPIF_ITERATOR_HAS_NEXT(it)) SPIF_ITERATOR_NEXT(it);
             SPIF_ITERATOR_DEL(it);
-            if (arr) sim_free(arr);
+            if (arr) LIB_FREE(arr);
             SPIF_OBJ_DEL(pr);
         } else if (IS_VEC(k)) {
             spif_obj_t pr = new_elem(how % 7);
@@ -353,7 +353,7 @@ static void query(int slot, const op_t *o)
             SPIF_VECTOR_FIND(x, pr);
             while (SPIF_ITERATOR_HAS_NEXT(it)) SPIF_ITERATOR_NEXT(it);
             SPIF_ITERATOR_DEL(it);
-            if (arr) sim_free(arr);
+            if (arr) LIB_FREE(arr);
             SPIF_OBJ_DEL(pr);
         } else if (IS_MAP(k)) {
             spif_obj_t pr = new_elem(how % 7);
@@ -400,6 +400,7 @@ static void comp_laws(void)
 }
 
 /* ------------------------------------------------------------------ executor */
+extern int protosim_skip_ledger;
 static obuf_t last[NSLOT], cur;
 static int op_objkind[PLAN_MAXOPS];
 static void del_obj(int s) { if (obj[s]) { SPIF_OBJ_DEL(obj[s]); obj[s] = NULL; } }
@@ -480,7 +481,7 @@ static void exec_common(const plan_t *p)
     R.cur_op = NULL; R.cur_op_index = p->nops;
     for (int s = 0; s < NSLOT; s++) del_obj(s);
     /* conservation: once every object the program created or was handed is deleted, the heap holds what it held before */
-    if (sa_count_live_since(base_serial) || sa_live_count() != base_live) {
+    if (!protosim_skip_ledger && (sa_count_live_since(base_serial) || sa_live_count() != base_live)) {
         char buf[300];
         size_t n = sa_report_live_since(base_serial, buf, sizeof(buf));
         int tag = 0;
@@ -491,6 +492,8 @@ static void exec_common(const plan_t *p)
     }
     if (vobj_live) sim_fail("LEAK(elements)", "%ld element objects were never deleted", vobj_live);
 }
+int protosim_skip_ledger;
+void protosim_exec_program(const plan_t *p) { mode_c05 = 0; protosim_skip_ledger = 1; exec_common(p); protosim_skip_ledger = 0; }
 static void exec_c05(const plan_t *p) { mode_c05 = 1; exec_common(p); }
 static void exec_c06(const plan_t *p) { mode_c05 = 0; exec_common(p); }
 
@@ -525,6 +528,7 @@ static void gen_common(plan_t *p, rng_t *r, int c05)
     }
     (void)kinds;
 }
+void protosim_gen_program(plan_t *p, rng_t *r) { gen_common(p, r, 0); }
 static void gen_c05(plan_t *p, rng_t *r) { gen_common(p, r, 1); }
 static void gen_c06(plan_t *p, rng_t *r) { gen_common(p, r, 0); }
 
